@@ -61,3 +61,132 @@ def method_effect(ctx, key):
                 v = agg_variant(e.args[1])
                 out.append((e.path, v[1] if v and v[0] == VAR else None, READERS[e.path], None, e, p))
     return out
+
+
+VIEW_CALLS = ("Deref>::deref", "::as_str", "::as_slice", "AsRef", "::as_ref", "Borrow", "::borrow", "Clone>::clone", "Clone for i64>::clone",
+              "Index<std::ops::RangeFull>>::index")
+
+
+def carried_unchanged(t, leaf):
+    """t reaches a subterm satisfying leaf(.) through references, views (deref/as_str/as_slice) and nothing else:
+    no cast, arithmetic or other call sits between the result and the stored value."""
+    t = strip_refs(t)
+    while True:
+        if leaf(t):
+            return True
+        if is_call(t, *VIEW_CALLS) and call_args(t):
+            t = strip_refs(call_args(t)[0])
+            continue
+        if isinstance(t, tuple) and t and t[0] == "deref":
+            t = strip_refs(t[1])
+            continue
+        return False
+
+
+def primitives(ctx, rule):
+    """insert_or_update overwrites/inserts `val` under `var` on every path; insert_or_push is entry(var).and_modify(push val).or_insert(val);
+    SummaryValue::push appends in order.  Necessary for C07 (kind consistency, stored value = set value) and C08 (a repeated single-valued
+    variable keeps its last value; multi-line variables accumulate in order)."""
+    for key in WRITERS:
+        ps = ctx.paths(key)
+        body = ctx.body(key)
+        if not ps:
+            continue
+        ent = [e for p in ps for e in p.calls("HashMap::entry")]
+        ok = bool(ent) and all(strip_refs(e.args[1]) == ("param", 2) for e in ent)
+        ctx.check(ok, rule, key, "keyed-by-var", "entry(var)", "%s does not address entries by its `var` argument" % key, fn_span(body))
+    ps = ctx.paths(WRITERS[0])
+    if ps:
+        body = ctx.body(WRITERS[0])
+        for i, p in enumerate(ret_paths(ps)):
+            st = [e for e in p.events if e.kind == "store" and strip_refs(e.value) == ("param", 3)]
+            ins = [e for e in p.events if e.kind == "call" and e.name.endswith("VacantEntry::insert") and strip_refs(e.args[1]) == ("param", 3)]
+            ctx.check(bool(st) or bool(ins), rule, WRITERS[0], "overwrite-%d" % i, "value replaced / inserted with `val`",
+                      "insert_or_update has a path that neither overwrites nor inserts `val`", fn_span(body))
+    ps = ctx.paths(WRITERS[1])
+    if ps:
+        body = ctx.body(WRITERS[1])
+        for i, p in enumerate(ret_paths(ps)):
+            am = [e for e in p.events if e.kind == "call" and e.path.endswith("::and_modify")]
+            oi = [e for e in p.events if e.kind == "call" and e.path.endswith("::or_insert")]
+            ok = len(am) == 1 and len(oi) == 1 and strip_refs(oi[0].args[1]) == ("param", 3) and oi[0].args[0] == am[0].term
+            ctx.check(ok, rule, WRITERS[1], "modify-or-insert-%d" % i, "entry(var).and_modify(push val).or_insert(val)",
+                      "insert_or_push is not and_modify(..).or_insert(val) on the same entry", fn_span(body))
+        ck = "summary::Summary::insert_or_push::{closure#0}"
+        cps = ctx.paths(ck)
+        for i, p in enumerate(ret_paths(cps or [])):
+            pu = [e for e in p.events if e.kind == "call" and e.path == "summary::SummaryValue::push"]
+            ok = len(pu) == 1 and strip_refs(pu[0].args[0]) == ("param", 2)
+            ctx.check(ok, rule, ck, "push-%d" % i, "existing.push(val)", "and_modify closure does not push onto the existing value", "")
+    pk = "summary::SummaryValue::push"
+    ps = ctx.paths(pk)
+    if ps:
+        body = ctx.body(pk)
+        oks = ret_paths(ps)
+        good = [p for p in oks if any(e.kind == "call" and e.path.endswith("extend_from_slice") for e in p.events)]
+        ctx.check(len(oks) >= 1 and len(good) == len(oks), rule, pk, "append", "A.push(A) appends (extend_from_slice) in order",
+                  "SummaryValue::push does not append with extend_from_slice on every returning path", fn_span(body))
+    # the reader primitives hand back the stored payload of the matching kind, unchanged (no cast, no arithmetic)
+    for key, kind in READERS.items():
+        ps = ctx.paths(key)
+        if not ps:
+            continue
+        body = ctx.body(key)
+        somes = 0
+        for i, p in enumerate(ret_paths(ps)):
+            sm = unwrap_some(p.end[1])
+            if sm is None:
+                continue
+            somes += 1
+
+            def leaf(s, kind=kind):
+                return (isinstance(s, tuple) and s and s[0] == "field" and s[2] == 0 and isinstance(s[1], tuple) and s[1][0] == "downcast" and s[1][2] == kind
+                        and bool(mentions(s[1][1], lambda g: is_call(g, "HashMap::get") and strip_refs(call_args(g)[1]) == ("param", 2))))
+            ctx.check(carried_unchanged(sm, leaf), rule, key, "returns-payload-%s" % kind, "Some(payload of %s(..) stored under var), unchanged" % kind,
+                      "%s returns %s, which is not the stored %s payload unchanged (a cast or computation sits in between)" % (key, term_str(sm), kind), fn_span(body))
+        ctx.check(somes >= 1, rule, key, "has-some-path", "reader returns the value when present", "%s never returns Some(..)" % key, fn_span(body), nontrivial=False)
+
+
+def accessors(ctx, V, racc, rpay):
+    """every public getter/setter/pusher addresses the variable its name denotes, with the spec kind, stores its argument / returns the stored value."""
+    fx = ctx.fx
+    counts = {"get": 0, "set": 0, "push": 0}
+    for v in V:
+        for pref, mode in (("", "get"), ("set_", "set"), ("push_", "push")):
+            key = "summary::Summary::%s%s" % (pref, v["stem"])
+            if mode == "push" and v["kind"] != "A":
+                if fx.fn(key) is not None:
+                    ctx.violation(racc, key, "pusher-on-scalar", "a pusher exists for the single-valued variable %s" % v["name"], "")
+                continue
+            if fx.fn(key) is None:
+                ctx.violation(racc, key, "missing", "public accessor %s not found" % key, "")
+                continue
+            eff = method_effect(ctx, key)
+            body = ctx.body(key)
+            counts[mode] += 1
+            want_callee = {"get": "summary::Summary::get_" + v["kind"].lower(), "set": WRITERS[0], "push": WRITERS[1]}[mode]
+            ok = len(eff) >= 1 and all(c == want_callee and var == v["variant"] and kind == v["kind"] for (c, var, kind, _, _, _) in eff)
+            ctx.check(ok, racc, key, "%s:%s" % (mode, v["name"]),
+                      "%s -> %s(%s, %s)" % (key.split("::")[-1], want_callee.split("::")[-1], v["variant"], v["kind"]),
+                      "%s performs %s; expected %s on variable %s with kind %s" % (key, [(c.split("::")[-1], var, kind) for (c, var, kind, _, _, _) in eff], want_callee.split("::")[-1], v["variant"], v["kind"]),
+                      fn_span(body))
+            if mode in ("set", "push") and ok:
+                # payload carries the caller's argument
+                okp = all(pay is not None and flows_from(p, pay, lambda s: s == ("param", 2)) for (_, _, _, pay, _, p) in eff)
+                ctx.check(okp, rpay, key, "%s:%s" % (mode, v["name"]), "stored value is built from the argument",
+                          "%s does not store its argument" % key, fn_span(body))
+                # ... and no numeric cast / arithmetic alters it on the way in (an i64 must be stored as that i64)
+                alter = [s for (_, _, _, pay, _, _) in eff if pay is not None for s in subterms(pay)
+                         if isinstance(s, tuple) and s and (s[0] in ("binop", "unop") or (s[0] == "cast" and not str(s[1]).startswith("PointerCoercion")))]
+                if v["kind"] == "I":
+                    # an integer needs no conversion at all: the payload is the argument itself
+                    alter += [pay for (_, _, _, pay, _, _) in eff if pay is not None and not carried_unchanged(pay, lambda s: s == ("param", 2))]
+                ctx.check(not alter, rpay, key, "%s:%s:unaltered" % (mode, v["name"]), "argument stored without cast or arithmetic",
+                          "%s alters its argument before storing it: %s" % (key, [term_str(a) for a in alter[:2]]), fn_span(body), nontrivial=False)
+            if mode == "get" and ok:
+                okr = all(p.end[1] == e.term for (_, _, _, _, e, p) in eff)
+                ctx.check(okr, rpay, key, "get:%s" % v["name"], "getter returns the stored value unchanged",
+                          "%s does not return the reader's result unchanged" % key, fn_span(body))
+    ctx.floor(racc, "summary::Summary", "getters", counts["get"], 23)
+    ctx.floor(racc, "summary::Summary", "setters", counts["set"], 23)
+    ctx.floor(racc, "summary::Summary", "pushers", counts["push"], 6)
